@@ -346,3 +346,5 @@ ENTRIES["C05"]["text"] += (" Props/Tie.singularCandidate_is_source ([G]): the wr
     "the CURRENT source (branch test, both while-wraps, half difference with the joint signs), is the model's singularCandidate on which equal_shift is proved.")
 ENTRIES["C04"]["text"] += (" Props/Tie.sortCost_is_source ([G]): the comparators of sort_by_closeness in the CURRENT source compute the model's sortCost; "
     "opw_entry_points_are_source: answers are normalised next to the reference, then sorted, then filtered.")
+ENTRIES["C10"]["text"] += (" TieColl.tasks_is_source ([G]): the task enumeration of detect_collisions_with_skips and check_required, parsed from the CURRENT source "
+    "(nested for / if / if-let blocks around tasks.push, each push checked to carry the pose and mesh of its own indices), is the model's `tasks` in push order.")
